@@ -82,6 +82,11 @@ structure St where
   filt : Nat := 0
   filtInterval : Int := 0
   postfilt : Nat := 0
+  /-- `max_segment_num_to_process`, max segment of the data, `max_timing_pos_num_to_process`, max TOF bin of the data -/
+  maxSeg : Int := -1
+  dataMaxSeg : Int := 0
+  maxTof : Int := -1
+  dataMaxTof : Int := 0
   rows : Array Row := #[]
   srows : Array Row := #[]
   wRange : List Int := []
@@ -121,7 +126,12 @@ def St.build (s : St) : St :=
       else none
     let q : Problem := { nz := s.nz, ny := s.ny, nx := s.nx, numSubsets := s.ns, rows := s.rows, numViewgrams := s.nvg,
                          prior := prior, priorNotParabolic := s.priorKind == "notparabolic", useSubsetSens := s.subsens,
-                         sensRows := if s.srows.isEmpty then none else some s.srows }
+                         sensRows := if s.srows.isEmpty then none else some s.srows,
+                         maxSegToProcess := if s.maxSeg == -1 then none else some s.maxSeg,
+                         maxTofToProcess := if s.maxTof == -1 then none else some s.maxTof,
+                         dataMaxSeg := s.dataMaxSeg, dataMaxTof := s.dataMaxTof,
+                         -- LogcoshPrior::parabolic_surrogate_curvature_depends_on_argument() returns false
+                         opaquePrior := if s.priorKind == "logcosh" then some false else none }
     { s with problem := some q, nonIdent := q.nonIdent }
 
 def St.withHess (s : St) : St :=
@@ -136,9 +146,9 @@ def gradBound (q : Problem) (subset : Int) (x : Array Rat) (g : Array Rat) : Arr
   let ymax := viewgramMax q (fun r => if r.zeroed then 0 else r.y)
   let absx := x.map absR
   let zeros : Array Rat := Array.replicate q.nvox 0
-  let cnt := q.rows.foldl (fun c r => if r.subset != subset then c else r.elems.foldl (fun c e => c.modify e.1 (· + 1)) c) zeros
+  let cnt := q.rows.foldl (fun c r => if r.subset != subset || !q.processed r then c else r.elems.foldl (fun c e => c.modify e.1 (· + 1)) c) zeros
   let lik := q.rows.foldl (fun out r =>
-    if r.subset != subset || r.zeroed then out      -- a zeroed bin back projects an exact 0
+    if r.subset != subset || r.zeroed || !q.processed r then out      -- a zeroed bin back projects an exact 0
     else
       let den := r.forward x + r.add
       let mden := r.forward absx + absR r.add
@@ -257,19 +267,22 @@ def stepLine (s : St) (line : String) : St × String :=
   | "cfg" :: _ :: "dims" :: nz :: ny :: nx :: "ns" :: ns :: "ss" :: ss :: "alpha" :: al :: "gamma" :: ga :: "ub" :: ub
       :: "prior" :: pk :: "beta" :: be :: "kappa" :: _ :: "add" :: _ :: "nvg" :: nvg :: "dones" :: dones
       :: "norm" :: _ :: "tof" :: _ :: "tofsens" :: _ :: "zero" :: _ :: "subsens" :: subsens :: "rand" :: rnd
-      :: "filt" :: fk :: fi :: pf :: _ =>
+      :: "filt" :: fk :: fi :: pf :: "segs" :: ms :: dms :: mt :: dmt :: _ =>
     ({ nz := N nz, ny := N ny, nx := N nx, ns := I ns, ss := I ss, alpha := R al, gamma := R ga, ub := R ub,
        priorKind := pk, beta := R be, nvg := N nvg, dones := dones == "1", subsens := subsens == "1", rand := rnd == "1",
-       filt := N fk, filtInterval := I fi, postfilt := N pf }, "ok")
+       filt := N fk, filtInterval := I fi, postfilt := N pf,
+       maxSeg := I ms, dataMaxSeg := I dms, maxTof := I mt, dataMaxTof := I dmt }, "ok")
   -- the SAME reconstruction object is configured anew (data, normalisation, prior, subsets, relaxation … changed by the
   -- user): a new problem, but the object keeps `*precomputed_denominator_ptr` as the previous run left it
   | "recfg" :: _ :: "dims" :: nz :: ny :: nx :: "ns" :: ns :: "ss" :: ss :: "alpha" :: al :: "gamma" :: ga :: "ub" :: ub
       :: "prior" :: pk :: "beta" :: be :: "kappa" :: _ :: "add" :: _ :: "nvg" :: nvg :: "dones" :: dones
       :: "norm" :: _ :: "tof" :: _ :: "tofsens" :: _ :: "zero" :: _ :: "subsens" :: subsens :: "rand" :: rnd
-      :: "filt" :: fk :: fi :: pf :: _ =>
+      :: "filt" :: fk :: fi :: pf :: "segs" :: ms :: dms :: mt :: dmt :: _ =>
     ({ nz := N nz, ny := N ny, nx := N nx, ns := I ns, ss := I ss, alpha := R al, gamma := R ga, ub := R ub,
        priorKind := pk, beta := R be, nvg := N nvg, dones := dones == "1", subsens := subsens == "1", rand := rnd == "1",
-       filt := N fk, filtInterval := I fi, postfilt := N pf, denom := s.denom, everSetUp := s.everSetUp }, "ok")
+       filt := N fk, filtInterval := I fi, postfilt := N pf,
+       maxSeg := I ms, dataMaxSeg := I dms, maxTof := I mt, dataMaxTof := I dmt,
+       denom := s.denom, everSetUp := s.everSetUp }, "ok")
   -- a parameter file that does not mention `relaxation parameter`, `relaxation gamma`, `upper bound`, `enforce initial
   -- positivity condition`: the run uses what `set_defaults` left (the model's `Params.default`), whatever the cfg line said
   -- (the harness passes the parsed `enforce_initial_positivity`, which this line's answer pins to the default, in `setup`)
@@ -283,12 +296,12 @@ def stepLine (s : St) (line : String) : St × String :=
   | "weights" :: a :: b :: c :: d :: e :: f :: "|" :: ws =>
     ({ s with wRange := [I a, I b, I c, I d, I e, I f], weights := (ws.map R).toArray }, "ok")
   | "kappa" :: "|" :: ks => ({ s with kappa := some (ks.map R).toArray }, "ok")
-  | "row" :: vg :: sub :: y :: a :: nf :: z :: _ :: rest =>
+  | "row" :: vg :: sub :: seg :: tof :: y :: a :: nf :: z :: _ :: rest =>
     ({ s with rows := s.rows.push { vg := N vg, subset := I sub, y := R y, add := R a, elems := elemPairs rest, norm := R nf,
-                                    zeroed := z == "1" } }, "ok")
-  | "srow" :: sub :: nf :: z :: _ :: rest =>
+                                    zeroed := z == "1", seg := I seg, tof := I tof } }, "ok")
+  | "srow" :: sub :: seg :: nf :: z :: _ :: rest =>
     ({ s with srows := s.srows.push { vg := 0, subset := I sub, y := 0, add := 0, elems := elemPairs rest, norm := R nf,
-                                      zeroed := z == "1" } }, "ok")
+                                      zeroed := z == "1", seg := I seg, tof := 0 } }, "ok")
   | ["sens0"] =>
     let s := s.build
     (s, String.ofList (s.nonIdent.toList.map fun b => if b then '1' else '0'))
